@@ -78,6 +78,17 @@ def build(wb: WB, spec: dict):
         m = _merge(wb, outs, "sum")
         wb.out("o", wb.gather(m, sa))
         return {"o": [11 * v for v in vals]}
+    if k == "dotjob":  # dot product of a directly scattered list with one that comes through scattered JOBS (later, in completion order)
+        vals = list(range(spec["n"]))
+        a = wb.inp("a", vals)
+        b = wb.inp("b", [10 * v for v in vals])
+        ea, sa = wb.scatter(a)
+        eb, sb = wb.scatter(b)
+        jb = wb.job({"x": eb}, op="inc", name="/dj")
+        outs = wb.combinator({"a": ea, "b": jb}, "dot")
+        m = _merge(wb, outs, "sum")
+        wb.out("o", wb.gather(m, sa))
+        return {"o": [11 * v + 1 for v in vals]}
     if k == "cart":
         from streamflow.cwl.transformer import CartesianProductSizeTransformer
 
@@ -263,6 +274,8 @@ def program_jobs(spec):
         return [f"/fx/0.{i}" for i in range(spec["n"])]
     if k == "multiloc":
         return [f"/ml/0.{i}" for i in range(spec["n"])]
+    if k == "dotjob":
+        return [f"/dj/0.{i}" for i in range(spec["n"])]
     if k == "filejobs":
         return [f"/f{i}/0" for i in range(spec["k"])]
     if k == "filescatter":
@@ -404,7 +417,27 @@ def run_case_c01(params, prefix):
 # catalogue and generic driver
 # ---------------------------------------------------------------------------------------------
 
+BOUNDS = {}  # spec_key -> deviation bound for the large programs of the catalogue
+
+
 def catalogue(tier):
+    out = []
+    for s in _catalogue(tier):
+        s = dict(s)
+        b = s.pop("bound", None)
+        if b is not None:
+            BOUNDS[spec_key(s)] = b
+        out.append(s)
+    return out
+
+
+def case_of(spec):
+    """catalogue case with the program's own deviation bound, if it has one"""
+    b = BOUNDS.get(spec_key(spec))
+    return {"spec": spec} if b is None else {"spec": spec, "bound": b}
+
+
+def _catalogue(tier):
     q = [
         {"prog": "pipeline", "k": 1}, {"prog": "pipeline", "k": 3},
         {"prog": "scatter", "n": 0}, {"prog": "scatter", "n": 1}, {"prog": "scatter", "n": 3},
@@ -421,12 +454,14 @@ def catalogue(tier):
         {"prog": "scatterloop", "starts": [0, 2], "pred": "lt3"},
         {"prog": "loopjob", "pred": "lt1"},
         {"prog": "seq_scatter_pipeline", "n": 2},
+        {"prog": "dotjob", "n": 2}, {"prog": "dotjob", "n": 11, "bound": 0},
     ]
     if tier == "quick":
         return q
     t = q + [
         {"prog": "pipeline", "k": 2}, {"prog": "scatter", "n": 2}, {"prog": "scatter", "n": 4},
-        {"prog": "scatter", "n": 11},
+        {"prog": "scatter", "n": 11}, {"prog": "dot2", "n": 12, "bound": 1}, {"prog": "dot1", "n": 11, "bound": 1},
+        {"prog": "dotjob", "n": 3}, {"prog": "dotjob", "n": 12, "bound": 1},
         {"prog": "nested", "a": 2, "b": 3}, {"prog": "nested", "a": 3, "b": 1}, {"prog": "nested", "a": 2, "b": 0},
         {"prog": "dot1", "n": 0}, {"prog": "dot1", "n": 3}, {"prog": "dot2", "n": 3}, {"prog": "dot2", "n": 0},
         {"prog": "cart", "n": 2, "m": 3}, {"prog": "cart", "n": 3, "m": 1}, {"prog": "cart", "n": 0, "m": 2},
